@@ -130,7 +130,11 @@ let step_seq f o out =
                   if parse_out ev <> mev then bad := "eval_json_pointer" :: !bad;
                   let mt = R.jp_parse p in
                   let it = if toks = "_" then [] else L.map bytes_of_hex (split_on '.' toks) in
-                  if it <> mt then bad := "parse_json_pointer" :: !bad
+                  if it <> mt then bad := "parse_json_pointer" :: !bad;
+                  (* the RFC 6901 oracle on what the implementation returned, over its own document *)
+                  let iev = (match parse_out ev with R.OOk j -> Some j | _ -> None) in
+                  if not (R.ok_jp a.R.o_root p it iev) then
+                    out := (Printf.sprintf "BAD\tside=impl\tclause=ok_jp:step%d (parse_json_pointer / eval_json_pointer against RFC 6901)" !i) :: !out
                 | _ -> failwith "bad extra")
              | _ -> ());
             if !bad <> [] then begin
